@@ -1112,6 +1112,20 @@ def rule_type_length(prog, fixture=False):
     return r
 
 
+def _shared_selector_assignment(prog):
+    from . import c15
+    r = c15.rule_selector_assignment(prog)
+    r.rule = "R-C01-12"      # `:0.$.NAME` reads volume A of drive 0, whatever --drive said: the right volume's bytes
+    return r
+
+
+def _shared_volume_extent(prog):
+    from . import c17
+    r = c17.rule_volume_extent(prog)
+    r.rule = "R-C01-13"      # the window through which file bodies are read is the whole volume (its last sectors included)
+    return r
+
+
 def _shared_surface_format(prog):
     from . import c13
     r = c13.rule_format_of_own_surface(prog)
@@ -1124,7 +1138,8 @@ def run(ctx):
     r1 = c02.rule_entry_fields(prog, only=["start_sector", "file_length"], rule_id="R-C01-1")
     return [r1, rule_body_path(prog), rule_walk_accounting(prog), rule_last_sector(prog),
             rule_degenerate_continue(prog), rule_opus_catalogue_slot(prog), rule_extents_from_sorted(prog),
-            rule_empty_files_do_not_overlap(prog), _shared_surface_format(prog), rule_type_length(prog)]
+            rule_empty_files_do_not_overlap(prog), _shared_surface_format(prog), rule_type_length(prog), _shared_selector_assignment(prog),
+            _shared_volume_extent(prog)]
 
 
 SELFTESTS = [
